@@ -31,5 +31,4 @@ def gsd_dict(data):
     """C19 clause 'gsd_fuzz': a GSD-like dict with drawn type string and key subset."""
     if len(data) < 3:
         return None
-    types = ["Sphere", "Ellipsoid", "Polygon", "ConvexPolyhedron", "Mesh", "sphere", "Polyhedron", "", None, 5, "mesh", "ConvexPolygon"]
-    return {"type_index": data[0] % (len(types) + 1), "keys": data[1], "dims": 2 + data[2] % 2, "vals": list(data[3:19])}
+    return {"type_index": data[0] % 13, "keys": data[1], "dims": 2 + data[2] % 2, "vals": list(data[3:19])}
